@@ -60,8 +60,6 @@ def parse(data: bytes) -> dict:
     for sec in ("TimingPoints", "SliderVelocities", "HitObjects"):
         if sec not in doc:
             raise RefError(f"no {sec} section")
-        if doc[sec] is None:
-            doc[sec] = []
         if not isinstance(doc[sec], list):
             raise RefError(f"{sec} is a {type(doc[sec]).__name__}, not a list")
 
